@@ -7560,11 +7560,16 @@ fn eval_struct_value(
 
     let mut fields = vec![];
 
+    // The values we have popped so far, most recent last. If we fail,
+    // we push them back in reverse, leaving the stack as we found it.
+    let mut popped_values: Vec<Value> = vec![];
+
     let type_bindings = env.current_frame().type_bindings.clone();
     for (field_sym, field_expr) in field_exprs {
         let field_value = env
             .pop_value()
             .expect("Value stack should have sufficient items for the struct literal");
+        popped_values.push(field_value.clone());
 
         let Some(field_info) = expected_fields_by_name.remove(&field_sym.name) else {
             // TODO: this would be a good candidate for additional
@@ -7576,7 +7581,7 @@ fn eval_struct_value(
             ))]);
 
             return Err((
-                RestoreValues(vec![]), // TODO
+                RestoreValues(popped_values.iter().rev().cloned().collect()),
                 EvalError::Exception(ExceptionInfo {
                     position: field_sym.position.clone(),
                     message,
@@ -7595,7 +7600,7 @@ fn eval_struct_value(
             Type::from_hint(&field_info.hint, &env.types, &type_bindings).unwrap_or_err_ty();
         if let Err(msg) = check_type(&field_value, &expected_ty, env) {
             return Err((
-                RestoreValues(vec![]), // TODO
+                RestoreValues(popped_values.iter().rev().cloned().collect()),
                 EvalError::Exception(ExceptionInfo {
                     position: field_expr.position.clone(),
                     message: ErrorMessage(vec![Text(format!(
@@ -7622,7 +7627,7 @@ fn eval_struct_value(
         ))]);
 
         return Err((
-            RestoreValues(vec![]), // TODO
+            RestoreValues(popped_values.iter().rev().cloned().collect()),
             EvalError::Exception(ExceptionInfo {
                 position: outer_expr_pos.clone(),
                 message,
